@@ -85,6 +85,16 @@ def run(ctx, R, tier):
     exits = [(x, s) for x in L['blocks'] for s in c.succ(x) if s not in L['blocks']]
     R.check(bool(exits), 'B.C10.exit', 'loop-exit', 'the decoder loop has no exit edge', detail={'exits': len(exits)})
 
+    # ---- "within bounded time": the thread notices Stopped / abandoned only when it wakes up, so how long it sleeps is a
+    # bound that must not depend on anything the sound or the decoder supplies: the sleep duration is a constant
+    sl = [(x, t) for x, t in c.calls() if (callee_path(t) or '') == 'std::thread::sleep']
+    for x, t in sl:
+        d = describe(c, t['args'][0], depth=8, at=x)
+        from ..rules import constant_term
+        const = constant_term(d)
+        R.check(const, 'B.C10.spin', 'sleep-constant', 'the decoder thread sleeps for %s: a duration computed from runtime values (e.g. the '
+                'decoder\'s sample rate) is not a bound on how long a stopped or discarded sound keeps its thread' % d[:120],
+                detail={'duration': d[:120]}, where=c.where(x))
     # ---- spin: classify every cycle of the thread loop
     cycles = [p for p in explore(c) if p.end.startswith('backedge')]
     ncyc = 0
@@ -180,6 +190,7 @@ def run(ctx, R, tier):
                     be = bool_edges(pb, re_[0])
                     if be is not None:
                         c03.silent_exit(F, R, pb, be[1], 'B.C10.starve', 'silent', what='starving decoder')
+        window_rule(F, R)
         # "playback continues from where it stopped to within a frame": the loop that steps through source frames
         # (`while fractional_position >= 1.0 { fractional_position -= 1.0; pop }`) is left only through its own guard, so
         # the fraction is below one after it whatever the ring buffer held; and every iteration takes one off
@@ -308,3 +319,36 @@ def order_ok_once(b, A, B):
     fwd = any(set(b.reach_after(a, removed=h)) & set(B) for a in A)
     back = any(set(b.reach_after(x, removed=h)) & set(A) for x in B)
     return fwd and not back
+
+
+def window_rule(F, R):
+    """"Gaps of silence, never repeated ... frames": the interpolation window handed to the resampling step holds what the
+    ring buffer holds, in order, and silence in every slot the decoder has not filled yet - it is built from
+    `[Frame::ZERO; n]` and each slot is overwritten only by the next buffered frame or, when there is none, by Frame::ZERO
+    (never by a copy of another slot)."""
+    from ..paths import describe_rv, expand_consts
+    b = F.body('sound::streaming::sound::StreamingSound::next_frames')
+    if not R.check(b is not None, 'B.C10.starve', 'anchor:next_frames', 'StreamingSound::next_frames not found'):
+        return
+    ZERO = expand_consts('const frame::Frame::ZERO')
+    init = [s for _, _, s in b.stmts() if s['k'] == 'assign' and s['rv']['k'] == 'repeat' and s['lhs'].get('ty', '').startswith('[frame::Frame')]
+    ok_init = len(init) == 1 and expand_consts(describe(b, init[0]['rv']['op'])) == ZERO
+    stores = [(bb, expand_consts(describe_rv(b, s['rv'], depth=8, at=bb))) for bb, _, s in b.stmts()
+              if s['k'] == 'assign' and s['lhs']['p'] and s['lhs'].get('ty') == 'frame::Frame']
+    bad = []
+    for bb, d in stores:
+        good = False
+        if 'Iterator>::next(' in d or 'Iterator>::next_back(' in d:
+            if d.startswith('std::option::Option::<T>::unwrap_or(') and d.endswith(', %s)' % ZERO):
+                good = True
+            if d.startswith('std::option::Option::<T>::unwrap_or_default('):
+                good = True
+        if d == ZERO:
+            good = True
+        if not good:
+            bad.append(d[:120])
+    R.check(ok_init and stores and not bad, 'B.C10.starve', 'window',
+            'the interpolation window of a streaming sound is not "buffered frames, then silence": %s'
+            % (bad or ('initialised with %s' % [describe(b, s['rv']['op']) for s in init])),
+            detail={'slots': 'next buffered frame or Frame::ZERO', 'stores': len(stores)}, where=b.file)
+
